@@ -315,3 +315,45 @@ def check_paraxial(ps, spec, impl, rtol=1e-7):
                 bad.append({'kind': 'paraxial', 'quantity': f'Lagrange invariant at surface {k}', 'implementation': H, 'matrix_optics': H0})
                 break
     return bad
+
+
+# --------------------------------------------------------------------------
+# C16: intensity along the path
+# --------------------------------------------------------------------------
+def check_intensity(surfs, recs, w):
+    """recs of one ray [launch, s1, ...] each [x,y,z,L,M,N,i,opd]; independent recomputation of the
+    intensity from segment lengths, apertures and coatings"""
+    bad = []
+    prev = recs[0]
+    exp_i = prev[6]
+    clipped = False
+    for si, (s, rec) in enumerate(zip(surfs, recs[1:])):
+        i = rec[6]
+        if not all(math.isfinite(v) for v in rec[:3]) or not all(math.isfinite(v) for v in prev[:3]):
+            break
+        if not math.isfinite(i):
+            bad.append({'surface': si + 1, 'kind': 'intensity-nonfinite', 'detail': repr(i)})
+            break
+        if i < -1e-15 or i > 1 + 1e-12:
+            bad.append({'surface': si + 1, 'kind': 'intensity-range', 'detail': repr(i)})
+        if i > prev[6] * (1 + 1e-12) + 1e-15:
+            bad.append({'surface': si + 1, 'kind': 'intensity-increase', 'detail': f'{prev[6]!r} -> {i!r}'})
+        d = math.dist(rec[:3], prev[:3])
+        exp_i *= math.exp(-4 * math.pi * s['k1'] * d * 1e3 / w)
+        p, _ = to_local(rec[:3], rec[3:6], s)
+        if s['aper'] is not None:
+            r2 = p[0] ** 2 + p[1] ** 2
+            edge = min(abs(r2 - s['aper'][0] ** 2), abs(r2 - s['aper'][1] ** 2))
+            if edge < 1e-9 * (1 + r2):
+                break      # on the rim: either verdict is acceptable
+            if r2 > s['aper'][0] ** 2 or r2 < s['aper'][1] ** 2:
+                exp_i = 0.0
+                clipped = True
+        if s['coat'] is not None:
+            exp_i *= s['coat'][1] if s['refl'] else s['coat'][0]
+        if abs(i - exp_i) > 1e-9 * (1 + abs(exp_i)):
+            bad.append({'surface': si + 1, 'kind': 'intensity-factor', 'detail': f'recorded {i!r}, expected {exp_i!r}',
+                        'clipped': clipped})
+            break
+        prev = rec
+    return bad
